@@ -106,6 +106,8 @@ func (s *Sim) tableCaps() []tableCap {
 		for j := range a.Tables {
 			out = append(out, tableCap{i, a.Tables[j].Size, a.Tables[j].Capacity})
 		}
+		// free tables are not listed individually; their capacity is part of the archetype's
+		out = append(out, tableCap{i, -1 - a.FreeTables, a.Capacity})
 	}
 	return out
 }
